@@ -860,6 +860,16 @@ def rule_P_PRIM(ctx):
         ok = a["k"] == "MethodCall" and a["method"] == "count" and strip(a["recv"])["k"] == "MethodCall" and strip(a["recv"])["method"] == "chars" \
             and field_path(strip(a["recv"])["recv"]) == (pn[0],)
     ctx.ob("P-PRIM", "head_skip(s) = head_step(s.chars().count())", ok, "")
+    # the composite skips every production is expressed in (P-SKELETON expands them at their call sites): exactly these two calls, in order
+    for nm, want in (("head_skip_and_spaces", [("head_skip", True), ("head_skip_spaces", False)]),
+                     ("head_skip_after_spaces", [("head_skip_spaces", False), ("head_skip", True)])):
+        it = fn(nm)
+        pn = [p["name"] for p in it["params"] if p["k"] == "Binding" and p["name"] != "self"]
+        calls = [c for c in hir.find_calls(it["body"]) if c.get("k") == "MethodCall" and field_path(c["recv"]) == ("self",)]
+        got = [(c["method"], bool(c["args"]) and field_path(c["args"][0]) == (pn[0],)) for c in calls] if len(pn) == 1 else None
+        others = [n for n in hir.walk(it["body"]) if n.get("k") in ("If", "Match", "Loop", "Ret", "Assign", "AssignOp")]
+        ctx.ob("P-PRIM", "%s(s) = %s" % (nm, "; ".join("%s(%s)" % (m, "s" if a else "") for m, a in want)), got == want and not others,
+               "calls %s" % (got,))
     it = fn("starts_with")
     rets = [n for n in hir.walk(it["body"]) if n.get("k") == "Ret"]
     tail = last(it)
